@@ -757,6 +757,14 @@ def g_godambe(s, P, light=True):
             if s.chance(0.4):
                 # the same call on another grid setting (E5: everything but the grid agrees)
                 P.add('G.FIM_uncert', f, [14] if pts != [14] else [10], W(p0), data, **dict(multinom=multinom, eps=eps, log=lg))
+            if s.chance(0.3):
+                # the same analysis on the folded data, before or after (E5: everything but the folding of the data agrees)
+                dataf = P.add('S.fold', data)
+                if s.chance(0.5):
+                    P.add('G.FIM_uncert', f, pts, W(p0), dataf, **dict(multinom=multinom, eps=eps, log=lg))
+                    P.add('G.FIM_uncert', f, pts, W(p0), data, **dict(multinom=multinom, eps=eps, log=lg))
+                else:
+                    P.add('G.FIM_uncert', f, pts, W(p0), dataf, **dict(multinom=multinom, eps=eps, log=lg))
         elif r < 0.5:
             P.add('G.GIM_uncert', f, pts, boots, W(p0), data, **dict(multinom=multinom, eps=eps, log=s.chance(0.3)))
         elif r < 0.7 and k >= 2:
